@@ -18,25 +18,29 @@ class C02(C01):
 
     def gen(self, tier, rng):
         quick = tier == "quick"
-        L = 2 if quick else 3
         for (retries, tmo_s, n, opts) in itertools.product((0, 1, 2), (1, 2), (0, 512, 1100), ((), (("timeout", None),))):
             if quick and retries == 0 and n == 1100:
                 continue
             tm = tmo_s * T.TICKS
             options = [("timeout", str(tmo_s))] if opts else []
             content = bytes(i % 251 for i in range(n))
-            pk = [p for (_, p) in T.PACKET_ALPHABET[:9]] if quick else [p for (_, p) in T.PACKET_ALPHABET]
-            steps = [0, 1, tm - 1, tm, tm + 1] if quick else T.time_steps(tm)
-            for k in range(0, L + 1):
-                for combo in itertools.product(itertools.product(steps, (0, 0, 1, 2) if not quick else (0, 1, 2), pk), repeat=k):
-                    if quick and k == 2 and rng.random() < 0.9:
-                        continue
-                    t = 0
-                    ev = []
-                    for (dt, a, p) in combo:
-                        t += dt
-                        ev.append((t, a, p))
-                    yield T.mk_case(content, [], options=options, default_tmo=tmo_s, retries=retries, events=ev)
+            full_pk = [p for (_, p) in T.PACKET_ALPHABET]
+            if quick:
+                plans = [(2, [0, 1, tm - 1, tm, tm + 1], (0, 1, 2), full_pk[:9], 0.9)]
+            else:
+                plans = [(2, T.time_steps(tm), (0, 1, 2), full_pk, 0.9),
+                         (3, [0, tm - 1, tm, tm + 1], (0, 1), full_pk[:3] + [full_pk[4], full_pk[8]], 0.9)]
+            for (L, steps, addrs, pk, skip) in plans:
+                for k in range(0, L + 1):
+                    for combo in itertools.product(itertools.product(steps, addrs, pk), repeat=k):
+                        if k >= 2 and rng.random() < skip:
+                            continue
+                        t = 0
+                        ev = []
+                        for (dt, a, p) in combo:
+                            t += dt
+                            ev.append((t, a, p))
+                        yield T.mk_case(content, [], options=options, default_tmo=tmo_s, retries=retries, events=ev)
         for _ in range(1000 if quick else 20000):
             retries = rng.choice([0, 1, 2, 3])
             tmo_s = rng.choice([1, 2, 5])
